@@ -67,7 +67,9 @@ TFiles == /\ IsEvent("Files")
 WireOK(e)     == e.ok /\ LET j == Canon(e.json) S == Canon(e.sch) IN Validates(j, S, doc) /\ Described(j, S, doc)
 ContractOK(e) == LET j == Enc(schema, e.val) S == Canon(e.sch) IN Validates(j, S, doc) /\ Described(j, S, doc)
 CheckHow(e) ==
-  IF e.hasVal /\ ~ContractOK(e)
+  \* a value that breaks a required rule is not a request the server accepts nor a reply it sends
+  IF e.hasVal /\ ~SatisfiesRequired(schema, e.val) THEN "ok"
+  ELSE IF e.hasVal /\ ~ContractOK(e)
   THEN (IF "D_openapi_wkt_as_objects" \in Dev /\ WktScalarReachable(schema, e.val.type) THEN "D_openapi_wkt_as_objects"
         ELSE IF "D_oneof_schema" \in Dev /\ OneofCfgReachable(schema, e.val.type) THEN "D_oneof_schema"
         ELSE IF "D_openapi_nested_flatten" \in Dev /\ NestedFlatten(schema, e.val.type) THEN "D_openapi_nested_flatten"
